@@ -1064,7 +1064,7 @@ func init() {
 	fw.Register(&fw.Property{
 		ID:    "C02",
 		Level: "exploration",
-		Rule: "reader cases: a random ground-truth WebVTT model (0..6 cues with ms times, numeric ids, 0..2-line NOTE comments, 0..3 regions in this library's 'Region: id=.. key=value' form with six attributes, cue settings subsets incl. region references, 0..2 STYLE blocks (also with a blank line inside an open block), optional X-TIMESTAMP-MAP in either key order, per line an optional voice, 1..4 segments with tag stacks of depth 0..3 over b/i/u/c.class[.class]/lang xx/ruby/rt carried across lines, inline timestamps placed before or after the opening tags) rendered 4 ways (EOL kinds, BOM, hh: optional, id numeric/absent/non-numeric, tabs or spaces before settings, header trailing text, </v> present or not, minimal or full escaping, region/style block order, shuffled settings) and read by the library; the projection must equal the model rune by rune (tag stack and timestamp per rune). " +
+		Rule: "reader cases: a random ground-truth WebVTT model (0..6 cues with ms times, numeric ids, 0..2-line NOTE comments, 0..3 regions in this library's 'Region: id=.. key=value' form with six attributes, cue settings subsets incl. region references, 0..2 STYLE blocks (also with a blank line inside an open block), optional X-TIMESTAMP-MAP in either key order, per line an optional voice, 1..4 segments with tag stacks of depth 0..3 over b/i/u/c.class[.class]/lang xx/ruby/rt carried across lines, inline timestamps placed before or after the opening tags, one later timestamp in four repeating the one before it) rendered 4 ways (EOL kinds, BOM, hh: optional, id numeric/absent/non-numeric, tabs or spaces before settings, header trailing text, </v> present or not, minimal or full escaping, region/style block order, shuffled settings) and read by the library; the projection must equal the model rune by rune (tag stack and timestamp per rune). " +
 			"writer cases: the models built from public types, written, decoded by the harness's own decoder (which rejects a region reference not defined earlier, misnested tags, out-of-range fields) and by the library reader; both must equal the model with ids 1..n. sweep cases: every block of 256 code points (quick: the BMP and one block per other plane; thorough: all 4352 blocks) written as cue text, 32 characters to a cue, and read back unchanged (white space, controls and the markup characters of the format left out). distinct_nontrivial = distinct documents compared.",
 		Assumptions: []string{"text lines contain no '-->' and have no white space at the edges (they may begin with NOTE, STYLE, Region: or X-TIMESTAMP-MAP: inside a cue that is text); no white-space-only segment next to a timestamp; once a line has a timestamp every later segment of the line carries its own", "colour (<c.colour> derived from TTMLColor) is not part of the statement and is left unset", "a literal '<' is left raw only before a space or a tab"},
 		Cases:       func(tier string) int64 { return 2*n(tier) + sweepBlocks(tier) },
